@@ -20,7 +20,7 @@ I/O boundary and have no encoding - main(argv) is left to the existing tests):
 import json
 import logging
 
-from ..core import SymStr, B, zand, Ctx
+from ..core import SymStr, B, zand, Ctx, Unsupported
 from .common import Harness, Outcome, run_property, str_eq
 from . import c07, c08, rt
 from .c09 import WText
@@ -274,6 +274,144 @@ class Translate(Harness):
         return Outcome("written", ok, {"text": got[1]})
 
 
+def file_bytes(text, encoding):
+    """the bytes a text file opened with *encoding* holds after *text* was written to it: ints / SymInts.
+    UTF-8 and ISO 8859-1 / ASCII modelled (one decision per symbolic character)"""
+    import codecs
+    from ..core import SymInt, SymChar
+    name = codecs.lookup(encoding).name
+    out = []
+    for c in (SymStr.of(text).cs if not isinstance(text, str) else text):
+        if isinstance(c, str):
+            out.extend(c.encode(name))
+            continue
+        z = SymInt(c.z)
+        if name == "utf-8":
+            if bool(z < 128):
+                out.append(z)
+            elif bool(z < 0x800):
+                out += [192 + z // 64, 128 + z % 64]
+            else:
+                raise Unsupported("UTF-8 of a symbolic character beyond U+07FF")
+        elif name in ("iso8859-1", "ascii"):
+            if not bool(z < (256 if name == "iso8859-1" else 128)):
+                raise UnicodeEncodeError(name, "?", 0, 1, "ordinal not in range [symbolic]")
+            out.append(z)
+        else:
+            raise Unsupported("file encoding %s" % name)
+    return out
+
+
+class TranslateMain(Harness):
+    """the command line itself: pvl_translate.main(['-of', F, infile, outfile]) with the file layer of argparse
+    replaced by stub streams (the infile holds a label with a symbolic string, the outfile records what is written
+    and the encoding it was OPENED with).  The bytes of the output file are those of a file to which
+    pvl.dump(pvl.load(infile), path, encoder=F's) writes (both go through the locale's encoding, UTF-8 here)"""
+    prop = "C20"
+    alphabet = "latin"
+    must_reach = ("written", "refused")
+    functions = ("pvl.pvl_translate.main", "pvl.pvl_translate.arg_parser", "pvl.pvl_translate.PVLWriter.dump", "pvl.load",
+                 "pvl.dump")
+    stubs = ("argparse.FileType -> stub text streams that record mode, encoding and errors (argparse itself runs)",
+             "locale encoding = UTF-8")
+    ENC = Translate.ENC
+
+    @property
+    def bounds(self):
+        return ("pvl_translate.main(['-of', '%s', 'in.lbl', 'out.lbl']) on the label a = \"<s>\" / GROUP g / b = (1, \"<s>\") "
+                "with s every string of length %d over ISO 8859-1 without quotes" % (self.fmt, self.n))
+
+    def inputs(self, ctx):
+        s = ctx.fresh_str(self.n, "s")
+        for c in s.cs:
+            ctx.assume(c.z != 34)
+        return {"s": s}
+
+    def prop_fn(self, L, inp):
+        import argparse
+        import locale
+        tool = L.tool("pvl_translate")
+        text = 'a = "' + inp["s"] + '"\nGROUP = g\n b = (1, "' + inp["s"] + '")\nEND_GROUP\nEND\n'
+        opened = {}
+
+        class RText:
+            """a text file opened for reading whose content decoded without error"""
+            def __init__(self, t):
+                self.t, self.pos = t, 0
+
+            def readable(self):
+                return True
+
+            def tell(self):
+                return self.pos
+
+            def seek(self, p):
+                self.pos = p
+
+            def read(self, n=-1):
+                r = self.t[self.pos:] if n is None or n < 0 else self.t[self.pos:self.pos + n]
+                self.pos = len(self.t) if n is None or n < 0 else min(len(self.t), self.pos + n)
+                return r
+
+        class FileTypeStub:
+            def __init__(self, mode="r", bufsize=-1, encoding=None, errors=None):
+                self.mode, self.encoding, self.errors = mode, encoding, errors
+
+            def __call__(self, name):
+                if "r" in self.mode:
+                    opened["in"] = (name, self.mode, self.encoding)
+                    return RText(text)
+                w = WText()
+                opened["out"] = (name, self.mode, self.encoding, self.errors, w)
+                return w
+
+        class ArgparseShim:
+            FileType = FileTypeStub
+
+            def __getattr__(self, n):
+                return getattr(argparse, n)
+        E = getattr(L.encoder, self.ENC[self.fmt])()
+        try:
+            exp = ("ok", L.pvl.dumps(L.pvl.loads(text), encoder=E))
+        except ValueError:
+            exp = ("ValueError", None)
+        except TypeError:         # the encoder's character-set refusal trips over its own message (s[i - 5, i + 5])
+            exp = ("TypeError", None)
+        real = tool.argparse
+        tool.argparse = ArgparseShim()
+        try:
+            try:
+                tool.main(["-of", self.fmt, "in.lbl", "out.lbl"])
+                got = "ok"
+            except ValueError:
+                got = "ValueError"
+            except TypeError:
+                got = "TypeError"
+        finally:
+            tool.argparse = real
+        if got != "ok" or exp[0] != "ok":
+            return Outcome("refused", got == exp[0], {"expected": exp[0], "got": got})
+        name, mode, enc, errors, w = opened["out"]
+        loc = "utf-8"            # locale.getpreferredencoding(False) of the sandbox; Path.write_text uses the same default
+        if errors not in (None, "strict") or "b" in mode:
+            return Outcome("written", False, {"outfile_opened_with": [mode, enc, errors]})
+        try:
+            fb = file_bytes("".join(w.got) if all(isinstance(x, str) for x in w.got) else _cat(w.got), enc or loc)
+        except UnicodeEncodeError:
+            return Outcome("written", False, {"outfile_opened_with": [mode, enc, errors], "error": "UnicodeEncodeError on write"})
+        eb = file_bytes(exp[1], loc)
+        from .common import int_eq
+        ok = len(fb) == len(eb) and zand([int_eq(a, b) for a, b in zip(fb, eb)])
+        return Outcome("written", ok, {"outfile_opened_with": [mode, enc, errors], "text": _cat(w.got)})
+
+
+def _cat(parts):
+    out = ""
+    for p in parts:
+        out = out + p
+    return out
+
+
 class TranslateJSON(Harness):
     prop = "C20"
     alphabet = "ascii"
@@ -340,6 +478,8 @@ def obligations(tier):
         for shape in ("single", "group", "grouponly", "wrapseq"):
             for n in ((1,) if quick else (0, 1, 2)):
                 obs.append(Translate(fmt=fmt, shape=shape, n=n))
+        for n in ((0, 1) if quick else (0, 1, 2)):
+            obs.append(TranslateMain(fmt=fmt, n=n))
     obs.append(TranslateJSON())
     return obs
 
